@@ -21,6 +21,10 @@ handleKeepaliveResponse` (connection/mod.rs, connection/rtt.rs), `Srtla.Sys.hand
   sampling.
 * `C14_smooth_nonneg`, `C14_smooth_float_nan`, `C14_Kalman_denominator_pos` — the filter output
   (ordered field, exact arithmetic; IEEE rounding is NOT covered, see the comments there).
+* Round 2, history level under a monotone clock: `C14_stamp_le_clock` (stamps never run ahead of the
+  clock), `C14_stamp_has_frame` (every stamp value was put on the wire at that time),
+  `C14_cadence_wire`, `C14_wire_cadence`, `C14_wire_cadence_two_periods` (consecutive keepalive FRAMES
+  on a live link's wire, any two consecutive ticks of any run from start-up).
 
 Everything except the last group holds for every scalar type `F` with any `[Scalar F]` instance,
 `Float` included.
@@ -455,5 +459,191 @@ example :
       (C14_Kalman_denominator_pos (fun x : ℚ => 1 / (1 - x))).1)⟩
   simp only [Kalman.update, Kalman.new, KalmanField.innov, Rtt.zero, Rtt.rNoise, Scalar.isFinite, Scalar.lit]
   norm_num
+
+
+/-! ## Round 2: stamps vs. the clock, and the cadence on the WIRE over whole histories
+
+The inequalities of `C14_cadence` / `C14_cadence_two_ticks` are in truncated `Nat` subtraction and are
+about the stamp `last_keepalive_sent`; by themselves they would be satisfied by a stamp in the far
+future, and they do not say that an old stamp ever corresponded to a datagram.  Both gaps are closed
+here by invariants over EVERY run of the shell from a start-up state (no stamps: every link is
+`SrtlaConnection::new_registering`, `FLink.newRegistering`), under the monotone-clock hypothesis
+"housekeeping ticks read non-decreasing clock values". -/
+
+section history
+variable {F : Type} [Scalar F]
+open Srtla.KaTrace
+
+/-- Start-up links carry no stamp (the base case of the run theorems below is not vacuous). -/
+example (id t : Nat) : (FLink.newRegistering id t : FLink F).lastKeepaliveSent = none := rfl
+
+/-- **The cadence clock never runs ahead of the housekeeping clock.**  For every run from a start-up
+state in which every housekeeping tick read a clock value `≤ T` (monotone clock: `T` = the value read
+by the latest tick, or any later time), every stamp `last_keepalive_sent = Some(k)` in the final state
+has `k ≤ T`.  No other event writes a stamp other than clearing it. -/
+theorem C14_stamp_le_clock (s0 : Sys F) (evs : List Ev) (T : Nat)
+    (h0 : ∀ l ∈ s0.links, l.lastKeepaliveSent = none)
+    (hT : ∀ e ∈ evs, ∀ t, e = .hk t → t ≤ T) :
+    ∀ l ∈ (runEvs s0 evs).links, ∀ k, l.lastKeepaliveSent = some k → k ≤ T :=
+  stampLe_run T s0 evs (stampLe_fresh T s0 h0) hT
+
+/-- A keepalive FRAME of conn id `cid` with send time `k` is in the wire history `tr`
+(`(time, conn id, bytes)` of every datagram put on an uplink socket, `KaTrace.wireTrace`): the bytes
+are `keepalive_packet(k)` of some state `m` of the link with that id (so `C14_frame` describes them:
+38 bytes, timestamp `k`, telemetry of `m`), sent at time `k` under that id. -/
+def FrameAt (tr : List (Nat × Nat × Codec.Bytes)) (cid k : Nat) : Prop :=
+  ∃ m : FLink F, m.core.connId = cid ∧ (k, cid, (m.keepalivePacket k).2) ∈ tr
+
+/-- A `FrameAt` witness is a keepalive-typed (0x9000) datagram in the history at that time. -/
+theorem C14_frameAt_is_keepalive (tr : List (Nat × Nat × Codec.Bytes)) (cid k : Nat)
+    (h : FrameAt (F := F) tr cid k) :
+    ∃ b, (k, cid, b) ∈ tr ∧ Codec.getPacketTypeS b = some 0x9000 := by
+  obtain ⟨m, -, hm⟩ := h
+  exact ⟨_, hm, by rw [keepalivePacket_pkt]; exact keepalive_type _ _⟩
+
+/-- **Every stamp was put on the wire** (the reverse direction of `C14_cadence`): in the state after
+ANY run from a start-up state, whenever a link's stamp is `Some(k)`, the wire history of that run
+contains that link's keepalive frame sent at time `k`. -/
+theorem C14_stamp_has_frame (s0 : Sys F) (evs : List Ev)
+    (h0 : ∀ l ∈ s0.links, l.lastKeepaliveSent = none) (j k : Nat) (l : FLink F)
+    (hl : (runEvs s0 evs).links[j]? = some l) (hk : l.lastKeepaliveSent = some k) :
+    FrameAt (F := F) (wireTrace s0 evs) l.core.connId k := by
+  have := witnessed_run [] s0 evs (witnessed_fresh s0 h0) j l k hl hk
+  simpa [FrameAt] using this
+
+/-- **One tick, with history.**  After any run `pre` from start-up whose ticks read clock values
+`≤ now`, a tick at `now` leaves a link that is connected and not timed out with a stamp `k` such that
+`k ≤ now < k + 1000` (genuine inequalities, no truncation), and the link's keepalive frame sent at
+time `k` is in the wire history. -/
+theorem C14_cadence_wire (s0 : Sys F) (pre : List Ev) (now j : Nat) (l : FLink F)
+    (h0 : ∀ l ∈ s0.links, l.lastKeepaliveSent = none)
+    (hmono : ∀ e ∈ pre, ∀ t, e = .hk t → t ≤ now)
+    (hl : (runEvs s0 pre).links[j]? = some l) (hc : l.core.connected = true)
+    (hto : l.isTimedOut now = false) :
+    ∃ l' k, (runEvs s0 (pre ++ [.hk now])).links[j]? = some l' ∧ l'.core.connId = l.core.connId ∧
+      l'.lastKeepaliveSent = some k ∧ k ≤ now ∧ now < k + 1000 ∧
+      FrameAt (F := F) (wireTrace s0 (pre ++ [.hk now])) l.core.connId k := by
+  obtain ⟨l', k, hl', hid, hk, hlt, -⟩ := C14_cadence (runEvs s0 pre) now j l hl hc hto
+  have hrun : runEvs s0 (pre ++ [.hk now]) = (handleHousekeeping (runEvs s0 pre) now).1 := by
+    rw [runEvs_append]; rfl
+  have hl'' : (runEvs s0 (pre ++ [.hk now])).links[j]? = some l' := by rw [hrun]; exact hl'
+  have hle : k ≤ now := by
+    refine C14_stamp_le_clock s0 (pre ++ [.hk now]) now h0 ?_ l' (List.mem_of_getElem? hl'') k hk
+    intro e he t het
+    rcases List.mem_append.mp he with he | he
+    · exact hmono e he t het
+    · simp only [List.mem_singleton] at he; subst he; cases het; exact Nat.le_refl _
+  refine ⟨l', k, hl'', hid, hk, hle, by omega, ?_⟩
+  have := C14_stamp_has_frame s0 (pre ++ [.hk now]) h0 j k l' hl'' hk
+  rw [hid] at this; exact this
+
+/-- **Cadence on the wire, any two consecutive ticks of any run.**  Let the shell run from start-up
+through any events `pre` (ticks at clock values `≤ t1`), a housekeeping tick at `t1`, any events `mid`
+other than housekeeping (client / uplink datagrams, flushes, configuration changes, injected send
+failures — link resets included), and the next tick at `t2` with `t1 ≤ t2 ≤ t1 + D`.  If link `j` is
+connected and not timed out at both ticks, there are send times `k1 ≤ k2` with
+`k1 ≤ t1 < k1 + 1000`, `k2 ≤ t2 < k2 + 1000`, `k2 < k1 + 1000 + D`, and the link's keepalive FRAMES sent at
+`k1` and at `k2` are both in the wire history of the run; `k2` is `k1` (no keepalive was due) or `t2`.
+With the 1 s housekeeping period (`D = 1000`): consecutive keepalive frames on the link's wire are less
+than 2000 ms = two housekeeping periods apart (`C14_wire_cadence_two_periods`). -/
+theorem C14_wire_cadence (s0 : Sys F) (pre mid : List Ev) (t1 t2 D j : Nat) (l m : FLink F)
+    (h0 : ∀ l ∈ s0.links, l.lastKeepaliveSent = none)
+    (hpre : ∀ e ∈ pre, ∀ t, e = .hk t → t ≤ t1)
+    (hmid : ∀ e ∈ mid, notHk e = true)
+    (h12 : t1 ≤ t2) (hD : t2 - t1 ≤ D)
+    (hl : (runEvs s0 pre).links[j]? = some l) (hlc : l.core.connected = true)
+    (hlt : l.isTimedOut t1 = false)
+    (hm : (runEvs s0 ((pre ++ [.hk t1]) ++ mid)).links[j]? = some m) (hmc : m.core.connected = true)
+    (hmt : m.isTimedOut t2 = false) :
+    ∃ k1 k2, k1 ≤ t1 ∧ t1 < k1 + 1000 ∧ k2 ≤ t2 ∧ t2 < k2 + 1000 ∧ k1 ≤ k2 ∧ k2 < k1 + 1000 + D ∧
+      (k2 = k1 ∨ k2 = t2) ∧
+      FrameAt (F := F) (wireTrace s0 (((pre ++ [.hk t1]) ++ mid) ++ [.hk t2])) l.core.connId k1 ∧
+      FrameAt (F := F) (wireTrace s0 (((pre ++ [.hk t1]) ++ mid) ++ [.hk t2])) l.core.connId k2 := by
+  -- tick 1
+  obtain ⟨l1, k1, hl1, hid1, hk1, hle1, hlt1, hf1⟩ := C14_cadence_wire s0 pre t1 j l h0 hpre hl hlc hlt
+  -- the events between the ticks keep or clear the stamp and keep the conn id
+  have hrun2 : runEvs s0 ((pre ++ [.hk t1]) ++ mid) = runEvs (runEvs s0 (pre ++ [.hk t1])) mid :=
+    runEvs_append _ _ _
+  have hfr := runEvs_frame (runEvs s0 (pre ++ [.hk t1])) mid hmid
+  have hidm := runEvs_id (runEvs s0 (pre ++ [.hk t1])) mid
+  rw [← hrun2] at hfr hidm
+  have hfm : LksFrame l1 m := hfr.2 j l1 m hl1 hm
+  have hmid' : m.core.connId = l.core.connId :=
+    Eq.trans (show m.core.connId = l1.core.connId from hidm.2 j l1 m hl1 hm) hid1
+  -- tick 2
+  have hpre2 : ∀ e ∈ (pre ++ [.hk t1]) ++ mid, ∀ t, e = .hk t → t ≤ t2 := by
+    intro e he t het
+    rcases List.mem_append.mp he with he | he
+    · rcases List.mem_append.mp he with he | he
+      · exact Nat.le_trans (hpre e he t het) h12
+      · simp only [List.mem_singleton] at he; subst he; cases het; exact h12
+    · have := hmid e he; subst het; simp [notHk] at this
+  obtain ⟨l2, k2, hl2, hid2, hk2, hle2, hlt2, hf2⟩ :=
+    C14_cadence_wire s0 ((pre ++ [.hk t1]) ++ mid) t2 j m h0 hpre2 hm hmc hmt
+  -- how the second stamp relates to the first
+  obtain ⟨l2', k2', hl2', -, hk2', -, hch⟩ :=
+    C14_cadence (runEvs s0 ((pre ++ [.hk t1]) ++ mid)) t2 j m hm hmc hmt
+  have hrun3 : runEvs s0 (((pre ++ [.hk t1]) ++ mid) ++ [.hk t2]) =
+      (handleHousekeeping (runEvs s0 ((pre ++ [.hk t1]) ++ mid)) t2).1 := by
+    rw [runEvs_append]; rfl
+  rw [hrun3, hl2'] at hl2; cases hl2
+  rw [hk2'] at hk2; cases hk2
+  have hrel : k2 = k1 ∨ k2 = t2 := by
+    rcases hch with h | ⟨h, -⟩
+    · rcases hfm with h' | h'
+      · rw [h, h', hk1] at hk2'; cases hk2'; exact Or.inl rfl
+      · rw [h, h'] at hk2'; cases hk2'
+    · exact Or.inr h
+  refine ⟨k1, k2, hle1, hlt1, hle2, hlt2, ?_, ?_, hrel, ?_, ?_⟩
+  · rcases hrel with h | h <;> omega
+  · rcases hrel with h | h <;> omega
+  · -- the first frame is in the prefix of the history
+    obtain ⟨x, hx, hin⟩ := hf1
+    refine ⟨x, hx, ?_⟩
+    rw [List.append_assoc, wireTrace_append]
+    exact List.mem_append_left _ hin
+  · rw [hmid'] at hf2; exact hf2
+
+/-- The literal reading of the property: housekeeping period 1000 ms, so two consecutive keepalive
+frames on a live link's wire are less than 2000 ms (two periods) apart. -/
+theorem C14_wire_cadence_two_periods (s0 : Sys F) (pre mid : List Ev) (t1 t2 j : Nat) (l m : FLink F)
+    (h0 : ∀ l ∈ s0.links, l.lastKeepaliveSent = none)
+    (hpre : ∀ e ∈ pre, ∀ t, e = .hk t → t ≤ t1)
+    (hmid : ∀ e ∈ mid, notHk e = true)
+    (h12 : t1 ≤ t2) (hD : t2 - t1 ≤ 1000)
+    (hl : (runEvs s0 pre).links[j]? = some l) (hlc : l.core.connected = true)
+    (hlt : l.isTimedOut t1 = false)
+    (hm : (runEvs s0 ((pre ++ [.hk t1]) ++ mid)).links[j]? = some m) (hmc : m.core.connected = true)
+    (hmt : m.isTimedOut t2 = false) :
+    ∃ k1 k2, k1 ≤ k2 ∧ k2 < k1 + 2000 ∧ k1 ≤ t1 ∧ k2 ≤ t2 ∧ t2 < k2 + 1000 ∧
+      FrameAt (F := F) (wireTrace s0 (((pre ++ [.hk t1]) ++ mid) ++ [.hk t2])) l.core.connId k1 ∧
+      FrameAt (F := F) (wireTrace s0 (((pre ++ [.hk t1]) ++ mid) ++ [.hk t2])) l.core.connId k2 := by
+  obtain ⟨k1, k2, a1, -, a3, a4, a5, a6, -, a8, a9⟩ :=
+    C14_wire_cadence s0 pre mid t1 t2 1000 j l m h0 hpre hmid h12 hD hl hlc hlt hm hmc hmt
+  exact ⟨k1, k2, a5, by omega, a1, a3, a4, a8, a9⟩
+
+end history
+
+/-- `exLink` before its first keepalive (no stamp): a start-up-like state for the run theorems. -/
+def exLink0 : FLink Int := { exLink with lastKeepaliveSent := none }
+def exSys0 : Sys Int := { links := [exLink0], reg := Reg.Reg.new [] [], clientKnown := true }
+
+/-- `C14_wire_cadence` is not vacuous: from `exSys0` (no stamps), a client datagram, a tick at 5000, an
+echo + a client datagram + a flush, a tick at 6000: the link is connected and live at both ticks, and
+the wire history holds exactly its keepalive-typed datagrams sent at 5000 and at 6000 (gap 1000 < 2000). -/
+example :
+    let pre : List Ev := [.client 4950 [0, 0, 0, 9, 0, 0, 0, 0]]
+    let mid : List Ev := [.uplink 5300 7 exEcho, .client 5400 [0, 0, 0, 9, 0, 0, 0, 0], .flush 5500]
+    (∀ l ∈ exSys0.links, l.lastKeepaliveSent = none) ∧
+    ((@KaTrace.runEvs Int Select.fixScalar exSys0 pre).links.map
+      fun m => (m.core.connected, @FLink.isTimedOut Int Select.fixScalar m 5000)) = [(true, false)] ∧
+    ((@KaTrace.runEvs Int Select.fixScalar exSys0 ((pre ++ [.hk 5000]) ++ mid)).links.map
+      fun m => (m.core.connected, @FLink.isTimedOut Int Select.fixScalar m 6000, m.lastKeepaliveSent))
+      = [(true, false, some 5000)] ∧
+    (((@KaTrace.wireTrace Int Select.fixScalar exSys0 (((pre ++ [.hk 5000]) ++ mid) ++ [.hk 6000])).filter
+        fun x => Codec.getPacketTypeS x.2.2 == some 0x9000).map fun x => (x.1, x.2.1))
+      = [(5000, 7), (6000, 7)] := by
+  refine ⟨by intro l hl; simp [exSys0] at hl; subst hl; rfl, ?_⟩
+  decide +kernel
 
 end Srtla.Props.C14
